@@ -25,7 +25,7 @@ type c12Case struct {
 
 func c12Dom(thorough bool) []float32 {
 	es := []int{-10, -3, 0, 1, 5, 10, 20}
-	ms := []float64{1, 1.25, 1.9999} // 1.9999 * 2^e against 1 * 2^(e+1): aspect ratios 1 part in 20000 apart
+	ms := []float64{1, 1.25, 1.5, 1.9999} // 1.9999 * 2^e against 1 * 2^(e+1): aspect ratios 1 part in 20000 apart
 	if thorough {
 		es = []int{-20, -10, -5, -3, -1, 0, 1, 2, 3, 5, 10, 20}
 		ms = []float64{1, 1.25, 1.5, 1.999, 1.9999}
@@ -39,14 +39,14 @@ func c12Dom(thorough bool) []float32 {
 	return d
 }
 
-var c12Align = []float32{0, 0.25, 0.5, 1}
+var c12Align = []float32{0, 0.25, 0.3, 0.5, 1} // 0.3: not a dyadic fraction
 var c12Off = []float32{0, -32, 1e3}
 
 func init() {
 	mc.Register(&mc.Check{
 		ID:    "C12",
 		Level: "exploration",
-		Rule: "Cartesian product of viewBox width/height and target dx/dy over {2^e*m} (21 values quick, 48 thorough), 3 viewBox origins, 4x4 alignment fractions, for AspectMeet and AspectSlice, plus ten extreme families (all dimensions ~2^64 resp. ~2^-80: products of two dimensions overflow resp. underflow float32 while every ratio stays moderate; viewBox ~2^-70 into a target ~2^60 and the reverse: the scale factor itself is outside the float32 range; subnormal viewBoxes ~2^-135 into subnormal and into normal targets, and the reverse; ordinary viewBoxes into targets whose two sides are 130..150 binary orders apart from each other); " +
+		Rule: "Cartesian product of viewBox width/height and target dx/dy over {2^e*m} (28 values quick, 60 thorough), 3 viewBox origins, 5x5 alignment fractions (0, 0.25, 0.3, 0.5, 1), for AspectMeet and AspectSlice, plus ten extreme families (all dimensions ~2^64 resp. ~2^-80: products of two dimensions overflow resp. underflow float32 while every ratio stays moderate; viewBox ~2^-70 into a target ~2^60 and the reverse: the scale factor itself is outside the float32 range; subnormal viewBoxes ~2^-135 into subnormal and into normal targets, and the reverse; ordinary viewBoxes into targets whose two sides are 130..150 binary orders apart from each other); " +
 			"every result compared with an exact (big.Rat / float64) reference fit. An outcome is the tuple (which dimension is constrained, sign of slack in x, sign of slack in y, method); " +
 			"non-trivial = aspect ratios differ so that slack or overflow is non-zero in one dimension",
 		Assumptions: []string{"linux/amd64 float32 semantics", "tolerance 2^-18 relative to max(target side, result extent) per axis"},
